@@ -65,8 +65,9 @@ type listSpec struct {
 	shape      int
 	goexit     bool
 	prelude    int  // 1..4: another helper (other encoding; 3, 4: other direction too) runs on the same T first, with no reset in between
+	nilErr     bool // interface shape: nil-interface cases after the first keep their expected error; such a list is judged for containment only
 	narrow     bool // interface shape: T is Narrow, an interface type that names only one of the six methods
-	typeHelper int // 0 none, 1 recording (symmetric), 2 recording with an asymmetric AssertEqual (zero fields of expected are not compared), 3 recording and prototype-cloning (New carries V.Mode over from its argument)
+	typeHelper int  // 0 none, 1 recording (symmetric), 2 recording with an asymmetric AssertEqual (zero fields of expected are not compared), 3 recording and prototype-cloning (New carries V.Mode over from its argument)
 	cases      []caseSpec
 }
 
@@ -110,7 +111,7 @@ func predMet(c caseSpec) bool {
 		return true
 	case pMatchDotAll:
 		return failed && !c.isPanic()
-	case pAny, pPrefixMet, pMatchMet, pPrefixEmpty, pSuffixEmpty, pCustomAccept:
+	case pAny, pPrefixMet, pMatchMet, pPrefixEmpty, pSuffixEmpty, pCustomAccept, pMatchEmpty:
 		return failed
 	case pExactMet, pSuffixMet:
 		// built from the complete scripted error text; a panic's text continues with a
@@ -263,6 +264,8 @@ func predicate(c caseSpec, i int) test.AssertErrorFunc {
 		return test.ErrorMatch("^" + regexp.QuoteMeta(short) + ".+$")
 	case pCustomFailNow:
 		return func(t test.TestingT, err error, failInfo string) bool { t.FailNow(); return false }
+	case pMatchEmpty:
+		return test.ErrorMatch(".*")
 	}
 	return test.ErrorMatch("(")
 }
@@ -278,6 +281,11 @@ type recHelper[T any] struct {
 
 func (h recHelper[T]) New(value T) T {
 	h.l.events = append(h.l.events, event{"typehelper.New", h.l.lastSeen})
+	if h.clone {
+		if pv, ok := any(value).(*V); ok && pv != nil {
+			return any(&V{Mode: pv.Mode}).(T) // a fresh target that carries the prototype's configuration
+		}
+	}
 	if t := reflect.TypeOf(value); t != nil && t.Kind() == reflect.Ptr {
 		return reflect.New(t.Elem()).Interface().(T)
 	}
@@ -316,6 +324,9 @@ func (h recHelper[T]) AssertEmpty(t test.TestingT, value T, failInfo string) {
 	}
 	if pv, ok := any(value).(V); ok && h.clone && pv.Case == 0 && pv.Payload == "" {
 		empty = true // a fresh prototype clone carries its mode and nothing else
+	}
+	if pv, ok := any(value).(*V); ok && h.clone && pv != nil && pv.Case == 0 && pv.Payload == "" {
+		empty = true
 	}
 	if !empty {
 		t.Errorf("typehelper: not empty: %s", failInfo)
@@ -584,6 +595,7 @@ func execList(ls listSpec, keepMsgs bool) (l *listRun, escaped interface{}) {
 
 func execNoReset(ls listSpec, keepMsgs bool) (l *listRun, escaped interface{}) {
 	l = &listRun{specs: ls.cases, enc: ls.enc, jsonDoc: ls.enc == kJSON && ls.dir == dirMarshal, lastSeen: -1, failures: make([]int, len(ls.cases)), goexit: ls.goexit, keepMsgs: keepMsgs}
+	l.cloneCfg = ls.typeHelper == 3 && ls.shape == shPV && ls.dir == dirUnmarshal
 	cur = l
 	defer func() { cur = nil }()
 	body := func() {
@@ -649,6 +661,15 @@ func execNoReset(ls listSpec, keepMsgs bool) (l *listRun, escaped interface{}) {
 				if c.beh == bNilReceiver || (c.nilValue && ls.dir == dirUnmarshal) {
 					return nil
 				}
+				if ls.typeHelper == 3 {
+					// with the prototype-cloning TypeHelper the listed value carries configuration; a
+					// case that expects an error lists nothing but that (what a table of real tests does)
+					v := &V{Case: i + 1, Payload: c.payload, Mode: "mode:" + c.payload}
+					if ls.dir == dirUnmarshal && c.pred != pNone && !c.adjustPred {
+						v.Case, v.Payload = 0, ""
+					}
+					return v
+				}
 				return &V{Case: i + 1, Payload: c.payload}
 			})
 		case shIface:
@@ -702,6 +723,12 @@ func judge(ls listSpec, l *listRun, escaped interface{}) *core.Violation {
 	// L3 containment
 	if escaped != nil {
 		return mk("L3-panic-escaped", "escaped", fmt.Sprintf("a panic escaped the helper: %v", escaped))
+	}
+	if ls.nilErr {
+		// a nil interface value together with an expected error: whether the error that calling
+		// it produces satisfies the case is not something the statement settles; that no panic
+		// leaves the helper is unconditional
+		return nil
 	}
 	if len(ls.cases) > 0 && ls.cases[0].nilIface {
 		// the first case lists a nil interface value: it can neither be marshaled nor decoded
@@ -880,7 +907,7 @@ func normalise(ls *listSpec) {
 	if !ls.hasInterface() || ls.dir == dirMarshal {
 		ls.typeHelper = 0
 	}
-	if ls.typeHelper == 3 && ls.shape != shV {
+	if ls.typeHelper == 3 && ls.shape != shV && ls.shape != shPV {
 		ls.typeHelper = 1
 	}
 }
